@@ -104,4 +104,12 @@ theorem gen_totalStep_eq (s w : Int) : Gen.C12.totalVotingPowerStep s w = ValSet
 
 theorem gen_totalExceeds_eq (s : Int) : Gen.C12.totalVotingPowerExceeds s = decide (s > ValSet.cap) := rfl
 
+/-- `cstate.updateState`: the block step advances the updated set by the regenerated number of
+rounds (`nValSet.IncrementProposerPriority(1)`) -/
+theorem blockStep_eq_gen (vs : ValSet) (cs : List Validator) :
+    blockStep vs cs =
+      match updateWithChangeSet vs cs true with
+      | .error e => .error e
+      | .ok vs' => increment vs' Gen.C12.updateStateRounds := rfl
+
 end KV.ValSet.GenBridge
